@@ -5,6 +5,8 @@
 -/
 import BumpProof.Lemmas.MemTry
 
+set_option linter.unusedSimpArgs false
+
 namespace Arena
 open Rs
 
